@@ -48,6 +48,13 @@ func genStatic(g *core.G, maxLen int) {
 	q := []string{"(reg x61 1)", "(reg x61 2)", "(reg x41 1)", "(reg x62 1)", "(rr 0)", "(rr 1)", "(rr 2)",
 		"(load 2 " + a + ")", "(load 0 " + a + ")", "(add 1 x61 1)", "(has 2 " + b + ")", "(disc 2 all)"}
 	emitAll("(tree (p -1) (p 0) (p 1))", q, maxLen)
+	// a type set as a provider of names: px.AddTypes of TypeSet Zoo {Car} through every loader of a chain, before and after
+	// lookups that missed and definitions of the member's qualified name above, at and below
+	zc, z := nm("type", "Zoo::Car", "r"), nm("type", "Zoo", "r")
+	ts := []string{"(addts 0 x5a6f6f 0 (x436172 1))", "(addts 1 x5a6f6f 0 (x436172 1))", "(addts 2 x5a6f6f 0 (x436172 1))", "(addts 1 x5a6f6f 1 (x436172 2))",
+		"(load 0 " + zc + ")", "(load 2 " + zc + ")", "(load 2 " + z + ")", "(def 0 " + zc + " (t 9))", "(def 1 " + nm("type", "zoo::car", "r") + " (t 9))",
+		"(has 2 " + zc + ")", "(disc 2 all)"}
+	emitAll("(tree (p -1) (p 0) (p 1))", ts, maxLen)
 	qs := []string{"(reg x61 1)", "(reg x61 2)", "(reg x62 1)", "(rr 0)", "(rr 1)", "(load 1 " + a + ")", "(load 0 " + a + ")", "(disc 1 all)"}
 	emitAll("(tree (stw) (p 0))", qs, maxLen)
 }
